@@ -70,8 +70,9 @@ MathSet  == {1, 2, 3, 4, 5, 6, 8, 41, 42, 43, 44, 45, 46, 48, 53, 54, 55, 56}
 MathXtra(op) == CASE op = "Log1pExp" -> {10, 12, 13, 14, 15, 16}       \* the branches -37, 18, 33.3
                   [] op \in {"Exp", "Sinh", "Cosh", "Tanh", "Logistic", "Sigmoid"} -> {10, 11, 12}
                   [] op \in {"Erf", "Erfc", "LogErfc"} -> {7, 10, 11}
-                  [] op \in {"Sqrt", "Log", "Log1p", "Lgamma"} -> {10, 15, 29}
-                  [] op = "Gamma" -> {10}
+                  [] op \in {"Sqrt", "Log", "Log1p"} -> {7, 10, 11, 15, 29}      \* also below the domain
+                  [] op = "Lgamma" -> {7, 10, 12, 15, 29, 47, 50}     \* poles, both signs of Gamma, large arguments
+                  [] op = "Gamma" -> {7, 10, 12, 13, 15, 47, 50}
                   [] OTHER -> {}
 Math2Set == {1, 2, 3, 4, 5, 6, 15, 21, 41, 42, 44, 54, 55, 56} \cup MoreIf({7, 8, 10, 43, 46, 53})
 Pick(T, S) == SortedSeq({i \in S : Holds(T, G[i])})
@@ -121,8 +122,8 @@ Case(c, op, r, args, par, exp, ty) ==
   IF par = VZero THEN [g |-> c, op |-> op, r |-> r, args |-> args, exp |-> exp, ty |-> ty]
   ELSE [g |-> c, op |-> op, r |-> r, args |-> args, par |-> par, exp |-> exp, ty |-> ty]
 PCase(c, op, r, args, par, exp) == [g |-> c, op |-> op, r |-> r, args |-> args, par |-> par, exp |-> exp, ty |-> ""]
-VCase(op, r, et, vec, vec2, par, exp) ==
-  [g |-> "vec", op |-> op, r |-> r, par |-> par, et |-> et, vec |-> vec, vec2 |-> vec2, exp |-> exp]
+VCase(op, r, et, st, vec, vec2, par, exp) ==
+  [g |-> "vec", op |-> op, r |-> r, par |-> par, et |-> et, st |-> st, vec |-> vec, vec2 |-> vec2, exp |-> exp]
 Emit(c) == PrintT(ToJson(c))
 
 \* the type in which receiver R evaluates a real-valued function of its operands
@@ -141,6 +142,8 @@ InLog1pExpBranch3(v) == v.k = "int" /\ LtV(VI(18), v) /\ LtV(v, VI(34))
 KnownDeviation_LogSmoothMax(s, alpha) ==
   DivV(Add(One, SumTerms([k \in 1..Len(s) |-> MulV(s[k], Exp(MulV(Q(alpha), s[k])))])),
        SumTerms([k \in 1..Len(s) |-> Exp(MulV(Q(alpha), s[k]))]))
+\* Sqrt computed as Pow(x, 1/2): pow(-Inf, 1/2) = +Inf (known finding C02-real-sqrt-neginf)
+KnownDeviation_SqrtNegInf == PInf
 \* type-specific ABS on a fresh (non-negative) receiver: the argument itself
 KnownDeviation_ABS(x) == x
 
@@ -229,7 +232,9 @@ Math1Exp(op, R, v, x) ==
   IF Lost(v, x) THEN AnyRes
   ELSE LET s == Special1(op, x) IN
        IF s # NoSpecial
-       THEN (IF Cls(R) = "int" /\ s.k = "tok" THEN IDef ELSE s)
+       THEN (IF Cls(R) = "int" /\ s.k = "tok" THEN IDef
+             ELSE IF s = AnyRes /\ Cls(R) = "float" THEN AgreeRes ELSE s)
+       ELSE IF ~InDomain1(op, x) THEN (IF Cls(R) = "float" THEN AgreeRes ELSE AnyRes)
        ELSE VTerm(Meaning1(op, X(1)))
 Math1Vals == [op \in SeqSet(Math1Ops) |-> [T \in AllTypes |-> Pick(T, MathSet \cup MathXtra(op))]]
 Composite1 == {"Log1pExp", "Logistic", "Sigmoid"}
@@ -243,10 +248,13 @@ EmitMath1(op, R) ==
          \* other operations (every intermediate result is an integer of the receiver's type);
          \* everybody: inside the domain
          (/\ (Cls(R) = "int" => v.k = "int" /\ (op \in Composite1 => SmallB(v.b) /\ RAbs(ToInt(v.b)) <= 3))
-          /\ (IsSpecialOperand(x) \/ Lost(v, x) \/ InDomain1(op, x)))
+          /\ (Cls(R) = "int" => IsSpecialOperand(x) \/ Lost(v, x) \/ InDomain1(op, x)))
          => LET c == Case("math1", op, R, <<Arg(T, v)>>, VZero, Math1Exp(op, R, v, x), "")
             IN IF op = "Log1pExp" /\ InLog1pExpBranch3(v)
-               THEN Emit(WithDev(c, VTerm(KnownDeviation_Log1pExp(X(1))))) ELSE Emit(c)
+               THEN Emit(WithDev(c, VTerm(KnownDeviation_Log1pExp(X(1)))))
+               ELSE IF op = "Sqrt" /\ x = NInf_ /\ Cls(R) = "float"
+               THEN Emit(WithDev(c, KnownDeviation_SqrtNegInf))
+               ELSE Emit(c)
 
 (* -- math2: Pow, LogAdd, LogSub ---------------------------------------------- *)
 Math2Exp(op, R, v1, v2, x, y) ==
@@ -294,14 +302,18 @@ EmitParam(op, R) ==
       Emit(PCase("param", op, R, <<Arg(T, v)>>, par, VTerm(MeaningP(op, RatOfV(par), X(1)))))
 
 (* -- vec: reductions over dense vectors / matrices of element type ET -------- *)
-IntVecs  == << <<4>>, <<8, 6>>, <<2, 4, 6>>, <<1, 5>>, <<7, 4, 2>>, <<3, 9>> >>        \* grid indices
-FltVecs  == << <<41, 44>>, <<43, 2, 46>>, <<45, 4>> >>
-IntVecs2 == << <<6>>, <<2, 7>>, <<3, 2, 4>>, <<4, 4>>, <<2, 3, 8>>, <<8, 5>> >>
-FltVecs2 == << <<44, 41>>, <<4, 46, 42>>, <<43, 48>> >>
-PosVecs  == << <<4>>, <<4, 6>>, <<2, 4, 6>>, <<6, 2>> >>
-PosFlt   == << <<41, 44>>, <<43, 2, 46>>, <<2, 8>> >>
-Mats     == << <<4, 3, 2, 6>>, <<2, 1, 1, 2>>, <<7, 4, 8, 2>> >>                       \* 2x2, row major
-FltMats  == << <<41, 44, 4, 43>> >>
+\* vectors as grid indices (index 1 is the value 0): exact zeros leading, interior, trailing, all-zero
+IntVecs  == << <<4>>, <<8, 6>>, <<2, 4, 6>>, <<1, 5>>, <<7, 4, 2>>, <<3, 9>>,
+               <<1, 2>>, <<2, 1, 4>>, <<6, 1>>, <<1, 1>>, <<1>> >>
+FltVecs  == << <<41, 44>>, <<43, 2, 46>>, <<45, 4>>, <<1, 41>>, <<44, 1, 43>> >>
+IntVecs2 == << <<6>>, <<2, 7>>, <<3, 2, 4>>, <<4, 4>>, <<2, 3, 8>>, <<8, 5>>,
+               <<4, 6>>, <<2, 8, 1>>, <<1, 3>>, <<2, 4>>, <<6>> >>
+FltVecs2 == << <<44, 41>>, <<4, 46, 42>>, <<43, 48>>, <<43, 1>>, <<2, 44, 41>> >>
+PosVecs  == << <<4>>, <<4, 6>>, <<2, 4, 6>>, <<6, 2>>, <<1, 2>>, <<2, 1, 4>>, <<6, 1>>, <<1, 1>>, <<1>> >>   \* entries >= 0
+PosFlt   == << <<41, 44>>, <<43, 2, 46>>, <<2, 8>>, <<1, 41>>, <<44, 1, 43>> >>
+Mats     == << <<4, 3, 2, 6>>, <<2, 1, 1, 2>>, <<7, 4, 8, 2>>, <<1, 2, 4, 1>>, <<1, 1, 1, 6>> >>   \* 2x2, row major
+FltMats  == << <<41, 44, 4, 43>>, <<1, 41, 44, 1>> >>
+Storages == {"dense", "sparse"}
 ValsAt(s) == [k \in 1..Len(s) |-> G[s[k]]]
 XSeq(a, n) == [k \in 1..n |-> X(a + k)]
 VecExpTerm(op, n, alpha) ==
@@ -315,14 +327,18 @@ EmitVec(op, R) ==
               ELSE IF op \in {"SmoothMax", "LogSmoothMax"} THEN (IF fl THEN PosVecs \o PosFlt ELSE PosVecs)
               ELSE (IF fl THEN IntVecs \o FltVecs ELSE IntVecs)
         ws == IF fl THEN IntVecs2 \o FltVecs2 ELSE IntVecs2
+        \* moderate alpha (alpha * max x of order 1: every entry matters); an extreme one on the log scale only
         alphas == IF op \in {"SmoothMax", "LogSmoothMax"}
-                  THEN (IF Cls(R) = "int" THEN {VI(1)} ELSE {VI(1), VI(2)}) ELSE {VZero}
+                  THEN (IF Cls(R) = "int" THEN {VI(1)}
+                        ELSE IF op = "LogSmoothMax" THEN {VRat(1, 2), VI(1), VI(2), VI(20)}
+                        ELSE {VRat(1, 2), VI(1), VI(2)})
+                  ELSE {VZero}
     IN \* (an integer receiver has no log scale)
        (Cls(R) = "int" => op # "LogSmoothMax") =>
-       \A i \in 1..Len(vs) : \A al \in alphas :
+       \A i \in 1..Len(vs) : \A al \in alphas : \A st \in Storages :
          LET n == Len(vs[i])
              second == IF op = "VdotV" THEN ValsAt(ws[i]) ELSE NoVec
-             base == VCase(op, R, ET, ValsAt(vs[i]), second, al, VTerm(VecExpTerm(op, n, RatOfV(al))))
+             base == VCase(op, R, ET, st, ValsAt(vs[i]), second, al, VTerm(VecExpTerm(op, n, RatOfV(al))))
          IN \* `dev`: what the code is known to compute instead (known finding Mnorm without the square root);
             \* an observation that misses `exp` is that finding only if it equals `dev`
             IF op = "Mnorm"
